@@ -497,6 +497,12 @@ Proof.
   - (* Tok *)
     inversion W; subst. inversion M; subst. destruct pend; [discriminate|]. inversion TM; subst.
     apply tok_SInv. exact H.
+  - (* ExtState *)
+    inversion W; subst. inversion TM; subst. inversion M; subst.
+    eapply (setter_SInv b' pend' s n _ _ [] []); eauto; try reflexivity. exact (si_coh _ _ _ _ H).
+  - (* ExtAlpha *)
+    inversion W; subst. inversion TM; subst. inversion M; subst.
+    eapply (setter_SInv b' pend' s n _ _ [] []); eauto; try reflexivity. exact (si_coh _ _ _ _ H).
 Qed.
 
 Lemma run_SInv ops : forall b b' pend s s' n,
@@ -592,6 +598,9 @@ Qed.
 Definition f12_alpha_witness : list op :=
   [SetAlpha 500 false false None; Push; SetState (Some 1000) None; SetAlpha 500 false false None; Tok 0; Tok 1; Pop].
 
+Definition f12_alpha_state : st :=
+  Eval vm_compute in match run f12_alpha_witness (fresh false []) with Some s => s | None => fresh false [] end.
+
 Theorem skip_unsound_after_raw_gs :
   exists ops s',
     wb ops = true /\ tm_disciplined false ops = true /\ run ops (fresh false []) = Some s' /\
@@ -601,12 +610,15 @@ Theorem skip_unsound_after_raw_gs :
     map (fun o => g_ca (snd (fst (fst o)))) (i_obs (interp (rev (toks s')))) = [1000; 1000] /\
     map (fun o => g_ca (snd (fst (fst o)))) (i_obs (interp (rev (ntoks (nrun ops (nfresh false [])))))) = [500; 500].
 Proof.
-  exists f12_alpha_witness. eexists. repeat split; try reflexivity.
+  exists f12_alpha_witness, f12_alpha_state. repeat split; vm_compute; reflexivity.
 Qed.
 
 (* same for the Pattern colour space installed by set_color_space/set_color_special *)
 Definition f12_pattern_witness : list op :=
   [SetColor false (0, 0) 1000 false; Push; PatternColor false 0; Tok 0; Tok 1; Push; SetColor false (0, 0) 1000 false; Tok 0; Tok 1; Pop; Pop].
+
+Definition f12_pattern_state : st :=
+  Eval vm_compute in match run f12_pattern_witness (fresh false []) with Some s => s | None => fresh false [] end.
 
 Theorem skip_unsound_after_pattern_colour :
   exists ops s',
@@ -617,7 +629,7 @@ Theorem skip_unsound_after_pattern_colour :
     map (fun o => g_fill (snd (fst (fst o)))) (i_obs (interp (rev (ntoks (nrun ops (nfresh false [])))))) =
       [PCol (0, 0); PCol (0, 0); PPat 0; PPat 0].
 Proof.
-  exists f12_pattern_witness. eexists. repeat split; try reflexivity.
+  exists f12_pattern_witness, f12_pattern_state. repeat split; vm_compute; reflexivity.
 Qed.
 
 Example skip_is_sound_example :
@@ -625,6 +637,6 @@ Example skip_is_sound_example :
               BeginText; TextMatrix mat_id; SetFont (0,0); Tok 8; EndText; Push; Pop;
               BeginText; TextMatrix (1,0,0,1,5,5); SetFont (0,0); Tok 8; EndText; Pop; SetColor false (0,0) 500 false; Tok 1; Pop] in
   wb ops = true /\ tm_disciplined false ops = true /\ forallb raw_free ops = true /\
-  option_map (fun s => length (toks s)) (run ops (fresh false [])) = Some 22%nat /\
-  length (ntoks (nrun ops (nfresh false []))) = 32%nat.
-Proof. repeat split; reflexivity. Qed.
+  option_map (fun s => length (toks s)) (run ops (fresh false [])) = Some 21%nat /\
+  length (ntoks (nrun ops (nfresh false []))) = 28%nat.
+Proof. repeat split; vm_compute; reflexivity. Qed.
